@@ -2,12 +2,12 @@
 from contracts import energy as _e
 
 META = {
-    'level_text': 'Proof of the coefficient and structural obligations: with 1/alpha_k = N_k integer >= n_k and output shape (N_r, N_c) the factor the dft2 code puts in front of its sum satisfies kappa^2 N_r N_c = 1 (symbolic execution of the real dft2, all shapes, per-axis N); propagate_dft calls dft2 unitary with the per-axis alpha (C02 clauses re-verified here); _fft2 calls numpy fft2 exactly once with norm=\'ortho\' on an index rotation of its input; every intensity contribution is re^2 + im^2 >= 0 and Wavefront.intensity equals |field|^2 (C07 clauses re-verified); normalize_power algebra c^2 S = p. That these coefficients give total intensity = input power is Parseval (math lemma L3, assumed). Bounded native stand-ins: full-period energy for DFT and FFT with per-axis sampling, nested windows non-negative / monotone / bounded, normalize_power.',
+    'level_text': 'Proof of the coefficient and structural obligations: with 1/alpha_k = N_k integer >= n_k and output shape (N_r, N_c) the factor the dft2 code puts in front of its sum satisfies kappa^2 N_r N_c = 1 (symbolic execution of the real dft2, all shapes, per-axis N); propagate_dft calls dft2 unitary with the per-axis alpha (C02 clauses re-verified here); _fft2 calls numpy fft2 exactly once with norm=\'ortho\' on an index rotation of its input; every intensity contribution is re^2 + im^2 >= 0 and Wavefront.intensity equals |field|^2 (C07 clauses re-verified); util.normalize_power (real code, all shapes, complex and real input): every sample is scaled by one kappa >= 0 with kappa^2 * sum|a|^2 = p, the divisor the code computes is sum|a|^2 (Sigma-extensionality), hence sum|result|^2 = p. That these coefficients give total intensity = input power is Parseval (math lemma L3, assumed). Bounded native stand-ins: full-period energy for DFT and FFT with per-axis sampling, nested windows non-negative / monotone / bounded, normalize_power.',
     'level_note': 'L3 (Parseval over one full period) assumed; numpy.fft.fft2 abstract (its unitarity under norm=\'ortho\' is numpy\'s contract); window monotonicity follows from non-negativity plus window-independence of evaluated samples (C02) and is additionally checked natively. A2 reals ("to rounding" is not decided).',
 }
 FUNCTIONS = ['lentil.fourier.dft2', 'lentil.propagate._dft_alpha', 'lentil.propagate.propagate_dft',
              'lentil.wavefront.Wavefront.intensity#1', 'lentil.wavefront.Wavefront.intensity#2',
-             'lentil.propagate.propagate_fft#no-scratch', 'lentil.propagate.propagate_fft#scratch']
+             'lentil.propagate.propagate_fft#no-scratch', 'lentil.propagate.propagate_fft#scratch'] + list(_e.NORMALIZE)
 LEMMAS = list(_e.LEMMAS)
 
 
